@@ -631,6 +631,7 @@ impl Engine for C06 {
                             env_remove: vec![],
                             timeout: Duration::from_secs(30),
                             stdout_to: None,
+                            stdin_file: None,
                         },
                     );
                     let cr = match cr {
